@@ -19,7 +19,7 @@ def run(check, tier):
     interp_common.run_interp_cases(check, cases, "C01 profile", owns=["returned lines"])
     # the comparison family on present cells (numbers as people write them among them): never an error, lines as documented
     ccases = [S.gen_cmp_case(check.seed, i) for i in range(400 if tier == "quick" else 20000)]
-    interp_common.run_interp_cases(check, ccases, "comparison family", owns=["returned lines", "comparison of two present cells"], fn="case_cmp")
+    interp_common.run_interp_cases(check, ccases, "comparison family", owns=["returned lines", "comparison of two cells"], fn="case_cmp")
     check.extra["rule"] = ("generated csvpaths over the modelled core function set (depth<=3, 1-5 components, both logic modes, generated scan parts) x generated "
                            "files (ragged rows, blanks, numeric/text cells); each run compared with the Lean interpreter model and judged against the reference "
                            "semantics S (lines returned = scanned lines on which the components hold); non-trivial = some but not all non-blank records returned")
